@@ -7,8 +7,11 @@ def setup():
     """Build the whole framework from files on disk (MANIFEST.setup_cmd)."""
     from . import translate
     common.setup_imports()
+    translate._load_generators()
     with common.Lock():
         res = translate.generate(sorted(translate.REGISTRY))
+    from . import mkdriver
+    mkdriver.main()
     for k, v in res.items():
         print('translated', k, 'changed' if v[1] else 'same')
     with common.Lock():
